@@ -374,16 +374,33 @@ def mc_step(c, module, cfg, workers=8, timeout=3000, what="spec"):
     return r
 
 
-def gen_step(c, module, cfg, name, simulate=None, workers=8, timeout=3000, seed_=None, tag="REPLAY"):
+def gen_step(c, module, cfg, name, simulate=None, workers=8, timeout=3000, seed_=None, tag="REPLAY", limit=None):
     wd = workdir(c.prop.lower())
     out = os.path.join(wd, name + ".gen.out")
-    g = run_tlc(module, cfg, name=name, workers=workers, timeout=timeout, out_path=out, simulate=simulate, seed_=seed_)
     jsonl = os.path.join(wd, name + ".jsonl")
-    limit = None
     if simulate and simulate.startswith("num="):
-        limit = 4 * int(simulate.split("=")[1].split(",")[0])
-    nb = extract_replays(out, jsonl, tag=tag, limit=limit)
-    os.remove(out)
+        # One -simulate run resolves an existential choice (which method, which handle) in a way that is strongly
+        # correlated within the run: with a single seed whole branches of an action never appear.  Several runs
+        # with different seeds, half the number each, concatenated.
+        n = int(simulate.split("=")[1].split(",")[0])
+        base = seed_ if seed_ is not None else seed()
+        nb = 0
+        with open(jsonl, "w") as dst:
+            for k in range(4):
+                g = run_tlc(module, cfg, name="%s_s%d" % (name, k), workers=workers, timeout=timeout, out_path=out,
+                            simulate="num=%d" % max(1, (n + 1) // 2), seed_=base + k)
+                part = jsonl + ".s%d" % k
+                got = extract_replays(out, part, tag=tag, limit=None if limit is None else max(1, limit // 4))
+                os.remove(out)
+                with open(part) as src:
+                    for l in src:
+                        dst.write(l)
+                os.remove(part)
+                nb += got
+    else:
+        g = run_tlc(module, cfg, name=name, workers=workers, timeout=timeout, out_path=out, simulate=simulate, seed_=seed_)
+        nb = extract_replays(out, jsonl, tag=tag, limit=limit)
+        os.remove(out)
     if nb == 0:
         raise ToolError("generator %s produced no behaviours" % cfg)
     if not simulate:
